@@ -177,7 +177,7 @@ def run(rep):
     t = copy.deepcopy(base); next(e for e in t if e["digest"])["digest"] = "somethingelse"; cans.append(("result_depends_on_history", t))
     t = copy.deepcopy(base); t[1]["tables_ok"] = False; cans.append(("module_table_mutated", t))
     t = copy.deepcopy(base); t[-1]["tmp_ok"] = False; cans.append(("temp_file_left", t))
-    t = copy.deepcopy(base); t[0], t[1] = t[1], t[0]; cans.append(("not_a_model_behaviour", t))
+    t = copy.deepcopy(base); t[0]["op"] = "xml"; cans.append(("not_a_model_behaviour", t))   # rendering before anything was parsed
     a, _ = tlc.validate_traces("Trace_Process", tcfg, [c[1] for c in cans] + [base], shards=1, tag="canary")
     wrongly = [cans[i][0] for i in a if i < len(cans)]
     if wrongly or len(cans) not in a:
